@@ -1,6 +1,9 @@
 (** * C17, declarative side: what an IRI stem / an example must be.
 
-    Written from the property text; does not mention the model.
+    Written from the property text; does not mention the model.  (The one
+    generated constant read here, [Gen.Consts.c_min_iri_skips_bnode_prefix],
+    selects the DOMAIN of the stem theorems for the source tree at hand:
+    finding C09-F3, see [C17_dom].)
 
     "With detect_minimal_iri, the IRI stem attached to a shape is a prefix of
     the IRI of every instance of that shape, ends at a separator character
@@ -11,7 +14,7 @@
     value of that property (in that direction) on one of the shape's
     instances." *)
 From Coq Require Import List Ascii String ZArith Bool Lia.
-From Shexer Require Import Lib.PyStr Lib.Dict Spec.Rdf.
+From Shexer Require Import Lib.PyStr Lib.Dict Gen.Consts Spec.Rdf.
 Import ListNotations.
 Local Open Scope Z_scope.
 
@@ -33,9 +36,20 @@ Definition bare_scheme (s : str) : Prop :=
   exists sch, sch <> [] /\ sep_free sch /\
               (s = sch ++ Str ":" \/ s = sch ++ Str ":/" \/ s = sch ++ Str "://").
 
-(** a stem that may be printed for a class whose instances are [iris] *)
-Definition admissible (s : str) (iris : list str) : Prop :=
+(** an instance identifier is an IRI or the label of a blank node, written
+    [_:label]; a blank node has no IRI *)
+Definition bnode_id (i : str) : Prop := prefix (Str "_:") i.
+
+(** the shape of a stem: a common prefix of the identifiers that ends at a
+    separator, has three characters and is more than a scheme *)
+Definition stem_shaped (s : str) (iris : list str) : Prop :=
   common_prefix s iris /\ ends_with_sep s /\ 3 <= pylen s /\ ~ bare_scheme s.
+
+(** a stem that may be printed for a class whose instances are [iris]: "a
+    prefix of the IRI of every instance" -- every instance has an IRI (none is
+    a blank node), and the stem has the shape above *)
+Definition admissible (s : str) (iris : list str) : Prop :=
+  stem_shaped s iris /\ forall i, In i iris -> ~ bnode_id i.
 
 Definition is_longest (s : str) (iris : list str) : Prop :=
   admissible s iris /\ forall s', admissible s' iris -> (List.length s' <= List.length s)%nat.
@@ -46,7 +60,18 @@ Definition is_longest (s : str) (iris : list str) : Prop :=
 Definition well_formed_ids (iris : list str) : Prop :=
   iris <> [] /\ forall i, In i iris -> ~ prefix (Str "%") i.
 
-Definition C17_dom (iris : list str) : Prop := well_formed_ids iris.
+(** [C17_dom_at guard]: the domain of the stem theorems for a source tree in
+    which [_determine_suitable_iri_pattern] refuses ([guard = true]) or does
+    not refuse ([guard = false]) a common prefix that starts with the
+    blank-node marker.  With the guard: every well-formed list, classes with
+    blank-node instances included (nothing is printed for them).  Without it
+    (finding C09-F3: a "stem" such as [_:genid:] is cut out of the LABELS of a
+    class all of whose instances are blank nodes): the lists in which some
+    instance is not a blank node. *)
+Definition C17_dom_at (guard : bool) (iris : list str) : Prop :=
+  well_formed_ids iris /\ (guard = false -> exists i, In i iris /\ ~ bnode_id i).
+
+Definition C17_dom (iris : list str) : Prop := C17_dom_at c_min_iri_skips_bnode_prefix iris.
 
 (** *** the same, computable *)
 Definition is_sepb (c : ascii) : bool :=
@@ -65,11 +90,18 @@ Definition bare_schemeb (s : str) : bool :=
   | _ => str_eqb rest (Str ":") || str_eqb rest (Str ":/") || str_eqb rest (Str "://")
   end.
 
-Definition C17_domb (iris : list str) : bool :=
+Definition bnode_idb (i : str) : bool := prefixb (Str "_:") i.
+
+Definition well_formed_idsb (iris : list str) : bool :=
   match iris with
   | [] => false
   | _ :: _ => forallb (fun i => negb (prefixb (Str "%") i)) iris
   end.
+
+Definition C17_domb_at (guard : bool) (iris : list str) : bool :=
+  well_formed_idsb iris && (guard || existsb (fun i => negb (bnode_idb i)) iris).
+
+Definition C17_domb (iris : list str) : bool := C17_domb_at c_min_iri_skips_bnode_prefix iris.
 
 (** ** examples *)
 
